@@ -6,6 +6,7 @@ import (
 	"encoding/json"
 	"fmt"
 	"hash/crc32"
+	"math/big"
 	"reflect"
 	"strconv"
 	"strings"
@@ -855,7 +856,7 @@ func specSubdoc(pre *Doc, o *Op, newRev uint64, maxDoc int) Expect {
 	insert := o.Kind == KSubInsert
 	if pre.Live() {
 		var probe map[string]any
-		if err := json.Unmarshal(pre.Body, &probe); err != nil || probe == nil {
+		if err := decodeExact(pre.Body, &probe); err != nil || probe == nil {
 			return fail("num") // body is not a JSON object (whatever the CAS argument says)
 		}
 	}
@@ -871,7 +872,7 @@ func specSubdoc(pre *Doc, o *Op, newRev uint64, maxDoc int) Expect {
 	}
 	var doc map[string]any
 	if pre.Live() {
-		if err := json.Unmarshal(pre.Body, &doc); err != nil || doc == nil {
+		if err := decodeExact(pre.Body, &doc); err != nil || doc == nil {
 			return fail("num") // body is not a JSON object
 		}
 	} else {
@@ -897,7 +898,7 @@ func specSubdoc(pre *Doc, o *Op, newRev uint64, maxDoc int) Expect {
 	}
 	if len(o.Body) > 0 {
 		var v any
-		if err := json.Unmarshal(o.Body, &v); err != nil {
+		if err := decodeExact(o.Body, &v); err != nil {
 			if insert {
 				v = string(o.Body)
 			} else {
@@ -926,6 +927,71 @@ func specSubdoc(pre *Doc, o *Op, newRev uint64, maxDoc int) Expect {
 }
 
 // ---- helpers used by judges
+
+// decodeExact decodes JSON keeping number literals (json.Number), so that integers beyond 2^53 and long decimals
+// are not rounded by the oracle itself.
+func decodeExact(b []byte, v any) error {
+	d := json.NewDecoder(bytes.NewReader(b))
+	d.UseNumber()
+	if err := d.Decode(v); err != nil {
+		return err
+	}
+	if d.More() {
+		return fmt.Errorf("trailing data")
+	}
+	return nil
+}
+
+func exactEq(x, y any) bool {
+	switch a := x.(type) {
+	case json.Number:
+		b, ok := y.(json.Number)
+		if !ok {
+			return false
+		}
+		if a == b {
+			return true
+		}
+		ra, oka := new(big.Rat).SetString(string(a))
+		rb, okb := new(big.Rat).SetString(string(b))
+		return oka && okb && ra.Cmp(rb) == 0
+	case map[string]any:
+		b, ok := y.(map[string]any)
+		if !ok || len(a) != len(b) {
+			return false
+		}
+		for k, v := range a {
+			w, ok := b[k]
+			if !ok || !exactEq(v, w) {
+				return false
+			}
+		}
+		return true
+	case []any:
+		b, ok := y.([]any)
+		if !ok || len(a) != len(b) {
+			return false
+		}
+		for i := range a {
+			if !exactEq(a[i], b[i]) {
+				return false
+			}
+		}
+		return true
+	default:
+		return reflect.DeepEqual(x, y)
+	}
+}
+
+// jsonEqualExact: JSON equality in which numbers are compared as exact rationals (1.0 == 1, but
+// 9007199254740993 != 9007199254740992).
+func jsonEqualExact(a, b []byte) bool {
+	var x, y any
+	if decodeExact(a, &x) != nil || decodeExact(b, &y) != nil {
+		return bytes.Equal(a, b)
+	}
+	return exactEq(x, y)
+}
 
 func jsonEqual(a, b []byte) bool {
 	var x, y any
